@@ -109,6 +109,7 @@ bool LoadScenario(const js::J& j, Scenario* s, string* err) {
         op.cfg.js_ext_held = (int)jj["ext_held"].num(0);
         op.cfg.js_ext_max = (int)jj["ext_max"].num(0);
         op.cfg.js_moves = (int)jj["moves"].num(0);
+        op.cfg.js_byte = (int)jj["byte"].num('+');
       }
       op.crash = oj["crash"].boolean(false);
       op.expect_error = oj["expect_error"].boolean(false);
